@@ -32,16 +32,21 @@ def judge(case, res, prefix):
     out = []
     n = int(case["frames"])
     hs = common.hang_sig(case)
-    if res.timed_out:
+    lib_error = bool(res.res and res.res.get("api_error") == 1)  # get_packet returned EB_ErrorMax; teardown may then hang
+    if res.timed_out and not lib_error:
         return [("C03|encode-hang|%s" % hs, "encode did not finish within the watchdog (%.0fs); boundary log tail: %s"
                  % (res.wall, common.log_tail(prefix)))]
-    if enc.crashed(res) or res.res is None:
+    if not lib_error and (enc.crashed(res) or res.res is None):
         return [(None, "encoder process died (rc=%s) before the history could be judged: C11's subject [%s]"
                  % (res.rc, common.feature_sig(case)))]
     if res.res.get("api_error") == 2:
         return [("rejected-config", res.res.get("errmsg", ""))]
     if res.res.get("api_error"):
-        return [("C03|encoder-error|%s" % gop_sig(case), "API error: %s" % res.res.get("errmsg"))]
+        import re as _re
+        m = _re.search(r"flags=(0x[0-9a-f]+)", res.res.get("errmsg", ""))
+        # the library's error handler overwrites the packet's flags with its internal error code
+        code = ("|code=%s" % m.group(1)) if m else ""
+        return [("C03|encoder-error|%s%s" % (gop_sig(case), code), "API error: %s" % res.res.get("errmsg"))]
     pts = sent_pts(case)
     pk = res.pkts
     tags = [0x5000 + k for k in range(n)]
